@@ -958,25 +958,29 @@ func (b *B) CheckSwap(rule, fnName string) {
 		for _, f := range fields {
 			F := env.MustParse("p." + f)
 			got := map[string]bool{}
-			fc.Ctx.Instrs(func(in ssa.Instruction) {
-				st, ok := in.(*ssa.Store)
-				if !ok {
-					return
-				}
-				ia, ok := st.Addr.(*ssa.IndexAddr)
-				if !ok || !fc.Val(ia.X).Equal(F) {
-					return
-				}
-				idx, val := fc.Val(ia.Index), fc.Val(st.Val)
-				switch {
-				case idx.Equal(env.MustParse("i")) && val.Equal(env.MustParse("p."+f+"[j]")):
-					got["i<-j"] = true
-				case idx.Equal(env.MustParse("j")) && val.Equal(env.MustParse("p."+f+"[i]")):
-					got["j<-i"] = true
-				default:
-					got["other"] = true
-				}
-			})
+			// the exchange may be made here or by a helper handed the slice
+			for _, sfc := range fc.BoundCallees(1) {
+				sfc := sfc
+				sfc.Ctx.Instrs(func(in ssa.Instruction) {
+					st, ok := in.(*ssa.Store)
+					if !ok {
+						return
+					}
+					ia, ok := st.Addr.(*ssa.IndexAddr)
+					if !ok || !sfc.Val(ia.X).Equal(F) {
+						return
+					}
+					idx, val := sfc.Val(ia.Index), sfc.Val(st.Val)
+					switch {
+					case idx.Equal(env.MustParse("i")) && val.Equal(env.MustParse("p."+f+"[j]")):
+						got["i<-j"] = true
+					case idx.Equal(env.MustParse("j")) && val.Equal(env.MustParse("p."+f+"[i]")):
+						got["j<-i"] = true
+					default:
+						got["other"] = true
+					}
+				})
+			}
 			n++
 			if got["i<-j"] && got["j<-i"] && !got["other"] {
 				b.R.OK(rule, fnName+"/"+f, b.pos(fn), "exchanges elements i and j of "+f)
@@ -1154,6 +1158,11 @@ func solveZero(s *Sym, d *RF) map[AtomID]*RF {
 			continue
 		}
 		id := t.vars[0]
+		// a projection of a value that may also occur as a whole (fld:T.f(v) next
+		// to v itself) cannot be eliminated by substitution
+		if strings.HasPrefix(s.atoms[id].Name, "fld:") {
+			continue
+		}
 		// the atom must not occur elsewhere in d
 		occ := 0
 		for _, t2 := range d.N.terms {
@@ -1563,7 +1572,21 @@ func (b *B) AnyOf(alts ...func()) {
 	var first []*Obligation
 	for i, alt := range alts {
 		mark := len(r.Obs)
-		alt()
+		func() {
+			defer func() {
+				if rec := recover(); rec != nil {
+					switch e := rec.(type) {
+					case specErr:
+						r.Undecided("anchor", "alternative shape", "", "spec/anchor: "+string(e))
+					case anchorErr:
+						r.Undecided("anchor", "alternative shape", "", "anchor: "+string(e))
+					default:
+						panic(rec)
+					}
+				}
+			}()
+			alt()
+		}()
 		bad := false
 		for _, o := range r.Obs[mark:] {
 			if o.st != Discharged {
@@ -1573,10 +1596,43 @@ func (b *B) AnyOf(alts ...func()) {
 		if !bad && len(r.Obs) > mark {
 			return
 		}
+		if os.Getenv("GMSA_ANYOF_DEBUG") != "" {
+			for _, o := range r.Obs[mark:] {
+				if o.st != Discharged {
+					fmt.Fprintf(os.Stderr, "ANYOF alt#%d: %s %s: %s\n", i, o.Rule, o.Construct, clip(o.Detail, 400))
+				}
+			}
+		}
 		if i == 0 {
 			first = append([]*Obligation{}, r.Obs[mark:]...)
 		}
 		r.Obs = r.Obs[:mark]
 	}
 	r.Obs = append(r.Obs, first...)
+}
+
+// LitFieldAny: LitField in fc or in a module function it calls (parameters
+// bound to the actual arguments) — a literal built by a helper.
+func (fc *FC) LitFieldAny(typeName, field string) *RF {
+	var first interface{}
+	for _, sfc := range fc.BoundCallees(2) {
+		var v *RF
+		func() {
+			defer func() {
+				if rec := recover(); rec != nil {
+					if _, ok := rec.(anchorErr); !ok {
+						panic(rec)
+					}
+					if first == nil {
+						first = rec
+					}
+				}
+			}()
+			v = sfc.LitField(typeName, field)
+		}()
+		if v != nil {
+			return v
+		}
+	}
+	panic(first)
 }
